@@ -10,7 +10,9 @@ EXPLANATION = ("(1) QPACK static table == RFC 9204 Appendix A (99 rows, one shar
                "server side Headers::with_frame(first frame) -> SessionRequest::try_from -> into_session -> ready_sessions, nothing dropped or "
                "rewritten in between; (4) decision mirror: Ok(Connection) only on code().is_successful(), SessionRejected on its complement, "
                "accept starts from SessionResponse::ok(), refusals use 403/404/429; (5) both Connection::new sites receive "
-               "stream_session.session_id() (= id of the CONNECT stream).")
+               "stream_session.session_id() (= id of the CONNECT stream); (6) SessionRequest::new builds exactly the five pseudo-headers with "
+               ":authority == url.authority() and :path == url.path() ++ ('?' ++ query)? (string algebra, any spelling), and Headers::insert / get store and "
+               "look up names and values unchanged.")
 NOT_DECIDED = ["decode(encode(h)) == h for arbitrary strings (Huffman coder is an external crate; value-level law)", "URL parsing (url crate)"]
 TRUSTED = ["rustc MIR / const evaluation", "spec/qpack_static.json", "url::Url accessors"]
 
